@@ -9,7 +9,7 @@ from typing import Any, Iterator
 from jinja2 import nodes
 
 from .. import tplq
-from ..astutil import Locals, call_name, calls_in, constructs_error, error_names, names_in, norm, region, stmt_of, terminals, where
+from ..astutil import ERROR_CLASSES, ERROR_ONLY_HELPERS, Locals, call_name, calls_in, error_names, names_in, norm, region, short, stmt_of, terminals, where
 from ..cfg import CFG
 from ..core import PKG, Report
 from ..jinja_interp import expr_text
@@ -20,8 +20,9 @@ LEVEL = ("structural clauses (the bytes httpx sends are not decided): wire names
          "values for header/cookie/query; path placeholders rewritten (braces included) and formatted over the same collection, a mismatch "
          "between path template and path parameters can only end in an error; generated locals "
          "defined under guards implied by every use (truth tables); body-type table exhaustive and consistent with httpx keyword "
-         "names, Content-Type from the document's own key; optional arguments guarded; header values converted to str for every "
-         "non-str kind allowed in headers; the query filter drops UNSET and nothing but UNSET / None; sync/async variants equal as token "
+         "names, Content-Type from the document's own key; the model of a multipart body is flagged for to_multipart, registered, and the "
+         "flag never lowered; optional arguments guarded; header values converted to str for every non-str kind allowed in headers (what "
+         "transform_header writes is a str on every path and is what header_params stores); the query filter drops UNSET and nothing but UNSET / None; sync/async variants equal as token "
          "streams; security, the credential header overwritten before both httpx clients are built; parameter identity is (name, location).")
 
 
@@ -293,29 +294,102 @@ def _only_value(lc: Locals, name: str) -> ast.AST | None:
     return ds[0][2] if len(ds) == 1 and ds[0][0] == "assign" else None
 
 
-def _sources(ix: Any, f: Any, e: ast.AST, stop: frozenset[str] = frozenset(), depth: int = 5) -> list[ast.AST]:
-    """e and every expression whose value may flow into it: the definitions of the locals it reads, the return values of the private
-    helpers it calls (and what flows into those), the module-level tables these read.  `stop`: locals that are not unfolded."""
+class _Region:
+    """a function and the private helpers it calls, with the bindings that connect them: a name stands for what the statements of its
+    function bind it to and, when it is a parameter of a helper, for what the call sites within the region pass for it.  Extracting a
+    helper (or inlining one) moves expressions between functions; who is who does not change."""
+
+    def __init__(self, ix: Any, root: Any, depth: int = 2):
+        self.ix = ix
+        self.root = root
+        self.funcs = region(ix, root, depth)
+        self.helpers = {h.name: h for h in self.funcs[1:]}
+        self.lc = {g.qual: Locals(g.node) for g in self.funcs}
+        self.sites: dict[str, list[tuple[Any, ast.Call]]] = {}
+        self._active: set[tuple] = set()
+        for g in self.funcs:
+            for c in calls_in(g.node):
+                h = self.helper(c)
+                if h is not None:
+                    self.sites.setdefault(h.qual, []).append((g, c))
+
+    def helper(self, c: ast.Call) -> Any:
+        """the helper of the region that the call calls (None: somebody else)"""
+        return self.helpers.get(call_name(c).rsplit(".", 1)[-1])
+
+    @staticmethod
+    def args_for(h: Any, c: ast.Call) -> dict[str, ast.AST]:
+        """parameter of h -> the expression the call passes for it"""
+        a = h.node.args
+        pos = [x.arg for x in [*a.posonlyargs, *a.args]]
+        if h.kind in ("method", "classmethod"):
+            pos = pos[1:]
+        out: dict[str, ast.AST] = {}
+        for nm, v in zip(pos, c.args):
+            if isinstance(v, ast.Starred):
+                break
+            out[nm] = v
+        names = {x.arg for x in [*a.posonlyargs, *a.args, *a.kwonlyargs]}
+        out.update({k.arg: k.value for k in c.keywords if k.arg in names})
+        return out
+
+    def passed(self, g: Any, name: str) -> list[tuple[Any, ast.AST]]:
+        """(caller, expression) of what the region passes for the parameter `name` of its helper g"""
+        if g == self.root or name not in {a.arg for a in g.params}:
+            return []
+        return [(caller, v) for caller, c in self.sites.get(g.qual, []) for v in [self.args_for(g, c).get(name)] if v is not None]
+
+    def bindings(self, g: Any, name: str) -> list[tuple[Any, ast.AST]]:
+        """(function, expression) of what the name is in g: the values plain assignments give it, the arguments passed for it"""
+        return [(g, v) for k, _, v in self.lc[g.qual].defs.get(name, []) if k == "assign" and v is not None] + self.passed(g, name)
+
+    def loops(self, g: Any, name: str) -> list[tuple[str, ast.AST]]:
+        """(position in the target, iterable) of the for statements and comprehensions of g that bind the name: '' the target itself,
+        '[0]' / '[1]' the first / second element of a tuple target"""
+        return [(k[3:], v) for k, _, v in self.lc[g.qual].defs.get(name, []) if k.startswith("for") and v is not None]
+
+    def denotes(self, g: Any, e: ast.AST, pred: Any) -> bool:
+        """e is - or is a name that stands, through aliases (`a = b`, a parameter of a helper and its argument) for - an expression
+        for which pred(g, e) holds.  (pred may ask denotes about the parts of e; a name that is defined in terms of itself -
+        `path = path.replace(...)` - is what its other definitions make it.)"""
+        key = (id(pred), g.qual, e.id if isinstance(e, ast.Name) else id(e))
+        if key in self._active:
+            return False
+        self._active.add(key)
+        try:
+            if pred(g, e):
+                return True
+            if isinstance(e, ast.NamedExpr):
+                return self.denotes(g, e.value, pred)
+            if isinstance(e, ast.Name):
+                return any(self.denotes(h, v, pred) for h, v in self.bindings(g, e.id))
+            return False
+        finally:
+            self._active.discard(key)
+
+
+def _sources(rg: _Region, f: Any, e: ast.AST, stop: frozenset[str] = frozenset(), depth: int = 5) -> list[ast.AST]:
+    """e (an expression of the function f of the region) and every expression whose value may flow into it: the definitions of the locals
+    it reads, what the call sites pass for the parameters it reads, the return values of the private helpers it calls (and what flows
+    into those), the module-level tables these read.  `stop`: locals that are not unfolded."""
     out: list[ast.AST] = []
     seen: set[int] = set()
-    helpers = {h.name: h for h in region(ix, f)[1:]}
-    lcs: dict[str, Locals] = {}
 
     def go(g: Any, x: ast.AST, d: int) -> None:
         if id(x) in seen or d < 0:
             return
         seen.add(id(x))
         out.append(x)
-        lc = lcs.setdefault(g.qual, Locals(g.node))
+        lc = rg.lc[g.qual]
         params = {a.arg for a in g.params}
         for nm in sorted(names_in(x) - _comp_bound(x) - stop):
-            vals = _stmt_values(lc, nm)
+            vals = [(g, v) for v in _stmt_values(lc, nm)] + rg.passed(g, nm)
             if not vals and nm not in params and nm in g.module.variables:
-                vals = [g.module.variables[nm]]
-            for v in vals:
-                go(g, v, d - 1)
+                vals = [(g, g.module.variables[nm])]
+            for h, v in vals:
+                go(h, v, d - 1)
         for c in calls_in(x):
-            h = helpers.get(call_name(c).rsplit(".", 1)[-1])
+            h = rg.helper(c)
             if h is not None:
                 for r in ast.walk(h.node):
                     if isinstance(r, ast.Return) and r.value is not None:
@@ -323,6 +397,95 @@ def _sources(ix: Any, f: Any, e: ast.AST, stop: frozenset[str] = frozenset(), de
 
     go(f, e, depth)
     return out
+
+
+class _Assuming:
+    """what expressions are worth and where functions end once the outcome of one kind of comparison is given
+    (`fact(g, compare) -> bool | None`).  Values: True / False, ERR (an error object), NONE, or None when not known.  A call of a
+    helper of the region is worth what the helper returns under the same assumption; a local is worth its only definition."""
+
+    ERR, NONE = "error", "none"
+
+    def __init__(self, rg: _Region, fact: Any):
+        self.rg = rg
+        self.fact = fact
+        self.stack: list[str] = []
+
+    def ends(self, g: Any) -> tuple[set[ast.stmt], bool]:
+        """(the statements g can end with, can it fall off its end)"""
+        self.stack.append(g.qual)
+        try:
+            return terminals(g.node.body, lambda t: self.truth(g, t))
+        finally:
+            self.stack.pop()
+
+    def truth(self, g: Any, e: ast.AST) -> bool | None:
+        v = self.value(g, e)
+        return True if v in (True, self.ERR) else False if v in (False, self.NONE) else None
+
+    def value(self, g: Any, e: ast.AST | None, depth: int = 6) -> Any:
+        if e is None:
+            return self.NONE
+        if depth <= 0:
+            return None
+        if isinstance(e, ast.Constant):
+            return self.NONE if e.value is None else e.value if isinstance(e.value, bool) else None
+        if isinstance(e, ast.NamedExpr):
+            return self.value(g, e.value, depth - 1)
+        if isinstance(e, ast.UnaryOp) and isinstance(e.op, ast.Not):
+            t = self.truth(g, e.operand)
+            return None if t is None else not t
+        if isinstance(e, ast.BoolOp):
+            ts = [self.truth(g, x) for x in e.values]
+            if isinstance(e.op, ast.And):
+                return False if any(t is False for t in ts) else True if all(t is True for t in ts) else None
+            return True if any(t is True for t in ts) else False if all(t is False for t in ts) else None
+        if isinstance(e, ast.IfExp):
+            t = self.truth(g, e.test)
+            arms = [e.body] if t is True else [e.orelse] if t is False else [e.body, e.orelse]
+            vals = {self.value(g, a, depth - 1) for a in arms}
+            return vals.pop() if len(vals) == 1 else None
+        if isinstance(e, ast.Compare):
+            r = self.fact(g, e)
+            if r is not None:
+                return r
+            if len(e.ops) == 1 and isinstance(e.ops[0], (ast.Is, ast.IsNot, ast.Eq, ast.NotEq)):
+                for a, b in ((e.left, e.comparators[0]), (e.comparators[0], e.left)):
+                    if isinstance(b, ast.Constant) and b.value is None:
+                        v = self.value(g, a, depth - 1)
+                        if v in (self.ERR, self.NONE):
+                            return (v == self.NONE) == isinstance(e.ops[0], (ast.Is, ast.Eq))
+            return None
+        if isinstance(e, ast.Call):
+            cn = call_name(e)
+            if cn == "isinstance" and len(e.args) == 2:
+                v = self.value(g, e.args[0], depth - 1)
+                classes = [norm(x).rsplit(".", 1)[-1] for x in (e.args[1].elts if isinstance(e.args[1], ast.Tuple) else [e.args[1]])]
+                if v == self.ERR and any(c in ERROR_CLASSES for c in classes):
+                    return True
+                if v == self.NONE or (v == self.ERR and not any("Error" in c for c in classes)):
+                    return False
+                return None
+            if cn == "bool" and len(e.args) == 1 and not e.keywords:
+                return self.truth(g, e.args[0])
+            h = self.rg.helper(e)
+            if h is not None:
+                if h.qual in self.stack:
+                    return None
+                ends, falls = self.ends(h)
+                if any(not isinstance(r, ast.Return) for r in ends):
+                    return None
+                vals = {self.value(h, r.value, depth - 1) for r in ends} | ({self.NONE} if falls else set())
+                return vals.pop() if len(vals) == 1 else None
+            if cn.rsplit(".", 1)[-1] in ERROR_CLASSES | ERROR_ONLY_HELPERS:
+                return self.ERR
+            return None
+        if isinstance(e, ast.Name):
+            ds = self.rg.lc[g.qual].defs.get(e.id, [])
+            bs = self.rg.bindings(g, e.id)
+            if len(bs) == 1 and len(ds) <= 1:
+                return self.value(bs[0][0], bs[0][1], depth - 1)
+        return None
 
 
 def _py_stmts(text: str) -> Iterator[ast.stmt]:
@@ -488,6 +651,51 @@ def _security_truth(e: ast.expr, lc: Locals) -> bool | None:
     return True
 
 
+STR_BUILTINS = ("str", "repr", "format", "ascii")
+STR_METHODS = ("format", "format_map", "join", "lower", "upper", "casefold", "title", "capitalize", "swapcase", "strip", "lstrip", "rstrip",
+               "replace", "removeprefix", "removesuffix", "zfill", "ljust", "rjust", "center", "expandtabs", "translate")
+TO_STR_METHODS = ("isoformat", "strftime", "decode", "hex")
+
+
+def _is_str(e: ast.AST) -> bool:
+    """the generated expression is a str whatever the values of its operands: a literal, an f-string, str(...), a method of str on a
+    str, a conversion method of the standard library (isoformat / strftime / decode / hex), both arms of a conditional, a sum of strs"""
+    if isinstance(e, ast.Constant):
+        return isinstance(e.value, str)
+    if isinstance(e, ast.JoinedStr):
+        return True
+    if isinstance(e, ast.IfExp):
+        return _is_str(e.body) and _is_str(e.orelse)
+    if isinstance(e, ast.BoolOp):
+        return all(_is_str(v) for v in e.values)
+    if isinstance(e, ast.BinOp):
+        return (isinstance(e.op, ast.Add) and _is_str(e.left) and _is_str(e.right)) or (isinstance(e.op, ast.Mod) and _is_str(e.left))
+    if isinstance(e, ast.Subscript):
+        return _is_str(e.value)
+    if isinstance(e, ast.Call):
+        if isinstance(e.func, ast.Name):
+            return e.func.id in STR_BUILTINS
+        if isinstance(e.func, ast.Attribute):
+            return e.func.attr in TO_STR_METHODS or (e.func.attr in STR_METHODS and _is_str(e.func.value))
+    return False
+
+
+def _py_of(ps: list[_Piece], mode: str) -> tuple[ast.AST | None, dict[str, _Piece]]:
+    """the Python a path writes, parsed (mode: eval / exec), every hole an identifier of its own: (tree or None, identifier -> hole)"""
+    holes: dict[str, _Piece] = {}
+    text = ""
+    for p in ps:
+        if p.kind == "t":
+            text += p.text
+        else:
+            holes[f"HOLE_{len(holes)}_"] = p
+            text += f"HOLE_{len(holes) - 1}_"
+    try:
+        return ast.parse(textwrap.dedent(text).strip(), mode=mode), holes
+    except (SyntaxError, ValueError):
+        return None, holes
+
+
 def _generated_class(jx: Any, template: str, cls: str) -> ast.ClassDef | None:
     """the class as the template writes it (skeleton: macros inlined with the arguments of their call sites, holes as placeholders)"""
     text = "\n".join(to_lines(SkelWalker(jx, frozenset()).walk_template(template))[0])
@@ -513,7 +721,9 @@ def run(rep: Report, ctx: Any) -> str:
     et = jx.templates.get("endpoint_module.py.jinja")
     rep.require(em and et, "endpoint templates")
     rep.rule("R03.1", "header, cookie and query stores use the wire name as key inside a \"...\" literal and the python name as value; path "
-                      "placeholders are rewritten ({name}->{python_name}) and formatted over the same collection with python_name")
+                      "placeholders are rewritten ({name}->{python_name}, braces included, the result stored as the endpoint's path) and "
+                      "formatted over the same collection with python_name; when the names in the path template differ from the names of "
+                      "the path parameters sort_parameters can only end in an error")
     rep.rule("R03.2", "definite assignment: the guard of every use of headers / cookies / params implies the guard of its definition")
     rep.rule("R03.3", "BodyType members = httpx keyword names; for a body of every member some path through body_to_kwarg assigns the destination; "
                       "every media-type branch assigns a member; wherever the module serialises a body the result is stored under its "
@@ -522,12 +732,19 @@ def run(rep: Report, ctx: Any) -> str:
     rep.rule("R03.4", "optional arguments are not sent and set ones are: the query store is filtered, whenever it is built, by conditions "
                       "that drop UNSET and keep every value that is neither UNSET nor None; guarded_statement emits the statement without "
                       "its Unset test only for required properties (truth table); header stores go through guarded_statement")
-    rep.rule("R03.5", "every property class that allows the header location and whose Python type is not str defines transform_header")
+    rep.rule("R03.5", "every property class that allows the header location and whose Python type is not str defines transform_header; on "
+                      "every path through it transform_header writes one expression that is computed from its argument and is a str "
+                      "whatever the value (str(...), an f-string, a str literal per arm, ...); on every path through header_params on which "
+                      "the kind's template defines transform_header the value stored is what transform_header writes for the python name")
     rep.rule("R03.6", "sync_detailed/asyncio_detailed and sync/asyncio are equal as token streams modulo async/await and the client getter")
     rep.rule("R03.7", "requires_security is true exactly when the operation's security is not empty; on every path through `arguments` taken "
                       "for a secured operation the annotation of `client` is AuthenticatedClient; in the AuthenticatedClient class as "
                       "the template writes it, every construction of httpx.Client / httpx.AsyncClient is dominated by a store that overwrites "
                       "headers[self.auth_header_name] with a value read from self.token")
+    rep.rule("R03.10", "a model sent as multipart has to_multipart (which model.py.jinja writes only for a class whose is_multipart_body is set): "
+                       "a copy that sets is_multipart_body flows into Body(prop=) and into what is registered as classes_by_name; nowhere in "
+                       "the package is the flag of an existing object set to anything but True or `<its old value> or ...` (another use of "
+                       "the same class, as JSON or form data, must not take the method away)")
     rep.rule("R03.9", "parameter identity is (name, location): every comparison of the current parameter's name (or of a key built from it) in "
                       "add_parameters also receives its location - in the key, or in what selects the collection compared against")
 
@@ -555,59 +772,128 @@ def run(rep: Report, ctx: Any) -> str:
     rep.check(bool(gcalls) and all("endpoint.header_parameters[*].name" in t and "'headers[\"'" in t for t in stm_txts), "R03.1",
               "endpoint_macros.py.jinja::header_params::keyed-by-wire-name", "headers are not keyed by the wire name", where=f"{PKG}/templates/{em.name}")
     sp = ix.func("Endpoint.sort_parameters")
-    # the rewrite, wherever it lives (sort_parameters or a private helper of it) and however its strings are built: inside a loop
-    # `for <p> in endpoint.path_parameters`, a call <path>.replace(A, B) on endpoint.path (or a local holding it) where A is the text
-    # "{" <p>.name "}" and B the text "{" <p>.python_name "}" - braces included, or a name that is part of another one is rewritten too
+    srg = _Region(ix, sp)
+    # who is who in sort_parameters and its private helpers, whatever the locals are called and whichever function an expression lives in
+    COPIES = ("deepcopy", "copy", "evolve", "replace")
+
+    def is_endpoint(g: Any, e: ast.AST) -> bool:
+        """the endpoint that is sorted: the parameter `endpoint` of sort_parameters, a copy of it, the one a private helper returns"""
+        if isinstance(e, ast.Name) and g == sp and e.id == "endpoint":
+            return True
+        if not isinstance(e, ast.Call):
+            return False
+        if call_name(e).rsplit(".", 1)[-1] in COPIES and e.args and srg.denotes(g, e.args[0], is_endpoint):
+            return True
+        h = srg.helper(e)       # or what a private helper hands back of it
+        return h is not None and any(isinstance(r, ast.Return) and r.value is not None and srg.denotes(h, r.value, is_endpoint) for r in ast.walk(h.node))
+
+    def is_path(g: Any, e: ast.AST) -> bool:
+        """its path template, or a string made from it by a method of str (path.replace(...))"""
+        if isinstance(e, ast.Attribute) and e.attr == "path":
+            return srg.denotes(g, e.value, is_endpoint)
+        return isinstance(e, ast.Call) and isinstance(e.func, ast.Attribute) and srg.denotes(g, e.func.value, is_path)
+
+    def is_path_params(g: Any, e: ast.AST) -> bool:
+        """its path parameters (or a list / tuple of them)"""
+        if isinstance(e, ast.Attribute) and e.attr == "path_parameters":
+            return srg.denotes(g, e.value, is_endpoint)
+        return isinstance(e, ast.Call) and call_name(e) in ("list", "tuple") and len(e.args) == 1 and srg.denotes(g, e.args[0], is_path_params)
+
+    def is_path_param(g: Any, e: ast.AST) -> bool:
+        """one of its path parameters: the variable of a loop / comprehension over them, an element taken by subscript"""
+        if isinstance(e, ast.Subscript):
+            return srg.denotes(g, e.value, is_path_params)
+        if not isinstance(e, ast.Name):
+            return False
+        for pos, it in srg.loops(g, e.id):
+            if pos == "" and srg.denotes(g, it, is_path_params):
+                return True
+            if pos == "[1]" and isinstance(it, ast.Call) and call_name(it) == "enumerate" and it.args and srg.denotes(g, it.args[0], is_path_params):
+                return True
+        return False
+
+    def attr_of_param(g: Any, text: str, attr: str) -> str | None:
+        """`<x>.<attr>` (text) where x is one of the path parameters -> x"""
+        x = text[:-len(attr) - 1] if text.endswith("." + attr) else ""
+        return x if x.isidentifier() and srg.denotes(g, ast.Name(id=x, ctx=ast.Load()), is_path_param) else None
+
+    # the rewrite, wherever it lives (sort_parameters or a private helper of it) and however its strings are built: a call
+    # <path>.replace(A, B) on the endpoint's path (or a string made from it) where A is the text "{" <p>.name "}" and B the text
+    # "{" <p>.python_name "}" for one and the same path parameter p of the endpoint - braces included, or a name that is part of
+    # another one is rewritten too - and whose result ends up in the endpoint's path
     rewrites = []
-    for g in region(ix, sp):
-        gl = Locals(g.node)
-        for lp in [n for n in ast.walk(g.node) if isinstance(n, ast.For) and norm(n.iter) == "endpoint.path_parameters"]:
-            pv = norm(lp.target)
-            for c in ast.walk(lp):
-                if not (isinstance(c, ast.Call) and isinstance(c.func, ast.Attribute) and c.func.attr == "replace" and len(c.args) == 2 and not c.keywords):
-                    continue
-                recv = c.func.value
-                on_path = norm(recv) == "endpoint.path" or (isinstance(recv, ast.Name) and any(norm(v).startswith("endpoint.path") for v in gl.values_of(recv.id)))
-                if on_path and _str_pieces(c.args[0], gl) == ["{", (f"{pv}.name",), "}"] and _str_pieces(c.args[1], gl) == ["{", (f"{pv}.python_name",), "}"]:
-                    rewrites.append(c)
-    rep.check(bool(rewrites), "R03.1", "Endpoint.sort_parameters::placeholder-rewrite",
-              "path placeholders are not rewritten from name to python_name over path_parameters", where(sp, sp.node))
+    for g in srg.funcs:
+        gl = srg.lc[g.qual]
+        for c in calls_in(g.node):
+            if not (isinstance(c.func, ast.Attribute) and c.func.attr == "replace" and len(c.args) == 2 and not c.keywords):
+                continue
+            old, new = _str_pieces(c.args[0], gl), _str_pieces(c.args[1], gl)
+            if not (old and new and len(old) == len(new) == 3 and (old[0], old[2], new[0], new[2]) == ("{", "}", "{", "}")
+                    and isinstance(old[1], tuple) and isinstance(new[1], tuple)):
+                continue
+            pv = attr_of_param(g, old[1][0], "name")
+            if pv is not None and new[1][0] == f"{pv}.python_name" and srg.denotes(g, c.func.value, is_path):
+                rewrites.append(c)
+    # what is stored as the endpoint's path: <endpoint>.path = V, evolve(<endpoint>, path=V)
+    stored = []
+    for g in srg.funcs:
+        for n in ast.walk(g.node):
+            if isinstance(n, (ast.Assign, ast.AnnAssign)) and n.value is not None:
+                for t in (n.targets if isinstance(n, ast.Assign) else [n.target]):
+                    if isinstance(t, ast.Attribute) and t.attr == "path" and srg.denotes(g, t.value, is_endpoint):
+                        stored.append((g, n.value))
+            elif isinstance(n, ast.Call) and n.args and srg.denotes(g, n.args[0], is_endpoint):
+                stored += [(g, k.value) for k in n.keywords if k.arg == "path"]
+    kept = [c for c in rewrites if any(x is c for g, v in stored for x in _sources(srg, g, v))]
+    rep.check(bool(kept), "R03.1", "Endpoint.sort_parameters::placeholder-rewrite",
+              "path placeholders are not rewritten from name to python_name over path_parameters" if not rewrites else
+              "the path with its placeholders rewritten is not stored as the endpoint's path", where(sp, sp.node))
     fmt_loops = [f for f in et.tree.find_all(nodes.For) if expr_text(f.iter) == "endpoint.path_parameters"]
     ok = any("endpoint.path_parameters[*].python_name" in " ".join(expr_text(c) for o in f.find_all(nodes.Output) for c in o.nodes if not isinstance(c, nodes.TemplateData))
              for f in fmt_loops)
     rep.check(ok, "R03.1", "endpoint_module.py.jinja::format-over-path-parameters", ".format(...) keywords are not python_name over endpoint.path_parameters",
               where=f"{PKG}/templates/{et.name}")
-    # the names in the path template are compared with the names of the path parameters, and when they differ the function (or the private
-    # helper that compares) can only end in an error - whichever arm of the test that is, early return or nested
-    def _is_findall(v: str) -> bool:
-        return v.startswith("re.findall(") and v.endswith("endpoint.path)")
+    # the names in the path template are compared with the names of the path parameters, and when they differ sort_parameters can only
+    # end in an error - whichever arm of the test that is, early return or nested, the comparison made in place, held in a local or
+    # made by a private helper that returns its outcome (or the error)
+    def is_template_names(g: Any, e: ast.AST) -> bool:
+        """the names found in the path template: <regex>.findall(<path>) / re.findall(<regex>, <path>)"""
+        return (isinstance(e, ast.Call) and call_name(e).rsplit(".", 1)[-1] == "findall"
+                and any(srg.denotes(g, a, is_path) for a in [*e.args, *[k.value for k in e.keywords]]))
 
-    def _names_list(e: ast.AST) -> bool:
-        return (isinstance(e, ast.ListComp) and len(e.generators) == 1 and norm(e.generators[0].iter) == "endpoint.path_parameters"
-                and not e.generators[0].ifs and norm(e.elt) == f"{norm(e.generators[0].target)}.name")
+    def is_param_names(g: Any, e: ast.AST) -> bool:
+        """the names of the path parameters, in their order: [p.name for p in <path parameters>], or a list filled by a loop over them"""
+        if isinstance(e, ast.Call) and call_name(e) == "list" and len(e.args) == 1 and isinstance(e.args[0], ast.GeneratorExp):
+            e = e.args[0]
+        if isinstance(e, (ast.ListComp, ast.GeneratorExp)):
+            gen = e.generators[0]
+            return (len(e.generators) == 1 and not gen.ifs and isinstance(gen.target, ast.Name) and norm(e.elt) == f"{gen.target.id}.name"
+                    and srg.denotes(g, gen.iter, is_path_params))
+        if isinstance(e, ast.Name) and any(isinstance(v, ast.List) and not v.elts for _, v in srg.bindings(g, e.id)):
+            uses = [c for c in calls_in(g.node) if isinstance(c.func, ast.Attribute) and isinstance(c.func.value, ast.Name) and c.func.value.id == e.id]
+            return bool(uses) and all(c.func.attr == "append" and len(c.args) == 1 and attr_of_param(g, norm(c.args[0]), "name") for c in uses)
+        return False
 
-    diag = []
-    for g in region(ix, sp):
-        gl = Locals(g.node)
-        from_path = set(gl.bound_from(_is_findall, "assign"))
-        errs = error_names(g.node)
-        seen: list[ast.AST] = []
+    seen_cmp: list[ast.AST] = []
 
-        def mismatch(t: ast.expr, gl: Locals = gl, from_path: set = from_path, seen: list = seen) -> bool | None:
-            if isinstance(t, ast.Compare) and len(t.ops) == 1 and isinstance(t.ops[0], (ast.Eq, ast.NotEq)):
-                for a, b in ((t.left, t.comparators[0]), (t.comparators[0], t.left)):
-                    b = _only_value(gl, b.id) or b if isinstance(b, ast.Name) else b
-                    if ((isinstance(a, ast.Name) and a.id in from_path) or _is_findall(norm(a))) and _names_list(b):
-                        seen.append(t)
-                        return isinstance(t.ops[0], ast.NotEq)
-            return None
+    def names_differ(g: Any, t: ast.Compare) -> bool | None:
+        """the outcome of the comparison of the two lists of names when they differ"""
+        if len(t.ops) == 1 and isinstance(t.ops[0], (ast.Eq, ast.NotEq)):
+            for a, b in ((t.left, t.comparators[0]), (t.comparators[0], t.left)):
+                if srg.denotes(g, a, is_template_names) and srg.denotes(g, b, is_param_names):
+                    seen_cmp.append(t)
+                    return isinstance(t.ops[0], ast.NotEq)
+        return None
 
-        ends, falls = terminals(g.node.body, mismatch)
-        if seen:
-            diag.append(not falls and bool(ends) and all(isinstance(r, ast.Raise) or (isinstance(r, ast.Return) and (
-                constructs_error(r.value) or (isinstance(r.value, ast.Name) and r.value.id in errs))) for r in ends))
-    rep.check(bool(diag) and all(diag), "R03.1", "Endpoint.sort_parameters::path-template-check",
-              "a mismatch between the path template and the path parameters is not diagnosed", where(sp, sp.node))
+    differ = _Assuming(srg, names_differ)
+    ends, falls = differ.ends(sp)
+    errs = error_names(sp.node)
+    in_error = [isinstance(r, ast.Raise) or (isinstance(r, ast.Return) and r.value is not None and (
+        differ.value(sp, r.value) == differ.ERR or (isinstance(r.value, ast.Name) and r.value.id in errs))) for r in ends]
+    diagnosed = bool(seen_cmp) and not falls and bool(in_error) and all(in_error)
+    rep.check(diagnosed, "R03.1", "Endpoint.sort_parameters::path-template-check",
+              "a mismatch between the path template and the path parameters is not diagnosed", where(sp, sp.node),
+              lhs=sorted({norm(r)[:60] for r in ends}) if seen_cmp else "no comparison of the names in the path with the names of the path parameters")
 
     # ---- R03.2 ---------------------------------------------------------------------------------------------------------
     defs = {"headers": ("header_params", "headers: dict[str, Any] = {}"), "cookies": ("cookie_params", "cookies = {}"),
@@ -687,16 +973,27 @@ def run(rep: Report, ctx: Any) -> str:
     rep.check(handled == sorted(set(members.values())), "R03.3", "body_to_kwarg::branches", f"body_to_kwarg assigns its destination for bodies of type "
               f"{handled}, BodyType has {sorted(members.values())}", where=f"{PKG}/templates/{em.name}:{btk.lineno}", lhs=handled, rhs=sorted(members.values()))
     bfd = ix.func("bodies.body_from_data")
-    body_calls = [c for c in ast.walk(bfd.node) if isinstance(c, ast.Call) and call_name(c) == "Body"]
+    brg = _Region(ix, bfd)
+    # the bodies are built by body_from_data or by a private helper of it
+    body_calls = [(g, c) for g in brg.funcs for c in calls_in(g.node) if call_name(c) == "Body"]
     rep.require(body_calls, "Body(...) construction in body_from_data")
-    bl = Locals(bfd.node)
+    body_fields = list(ix.cls("Body").fields)
+
+    def body_arg(c: ast.Call, field: str) -> ast.AST | None:
+        """what the construction passes for the field (by keyword or by position)"""
+        kw = {k.arg: k.value for k in c.keywords}
+        if field in kw:
+            return kw[field]
+        i = body_fields.index(field) if field in body_fields else -1
+        return c.args[i] if 0 <= i < len(c.args) and not any(isinstance(x, ast.Starred) for x in c.args[:i + 1]) else None
+
     assigned = set()
-    for c in body_calls:
-        v = next((k.value for k in c.keywords if k.arg == "body_type"), None)
+    for g, c in body_calls:
+        v = body_arg(c, "body_type")
         rep.require(v is not None, "Body(body_type=...)")
-        # the members that can reach Body(body_type=): written in place, held in a local, returned by a private helper, looked up in a
-        # module-level table - whatever flows into the argument
-        assigned |= {norm(n) for x in _sources(ix, bfd, v) for n in ast.walk(x)
+        # the members that can reach Body(body_type=): written in place, held in a local, passed to the helper that builds the body,
+        # returned by a private helper, looked up in a module-level table - whatever flows into the argument
+        assigned |= {norm(n) for x in _sources(brg, g, v) for n in ast.walk(x)
                      if isinstance(n, ast.Attribute) and isinstance(n.value, ast.Name) and n.value.id == bt.name}
     rep.check(assigned == {f"BodyType.{k}" for k in members}, "R03.3", "body_from_data::assigns-every-member",
               f"media type branches assign {sorted(assigned)}", where(bfd, bfd.node), lhs=sorted(assigned), rhs=sorted(f"BodyType.{k}" for k in members))
@@ -748,14 +1045,96 @@ def run(rep: Report, ctx: Any) -> str:
                     break
     rep.check(n_ct > 0 and not explicit, "R03.3", "endpoint_module.py.jinja::multipart-boundary",
               "a single multipart body gets an explicit Content-Type (httpx must set the boundary)", where=f"{PKG}/templates/{et.name}", lhs=explicit)
-    for c in body_calls:
-        loop = next((n for n in ast.walk(bfd.node) if isinstance(n, ast.For) and norm(n.iter).endswith(".items()") and any(x is c for x in ast.walk(n))), None)
-        keyvar = norm(loop.target.elts[0]) if loop is not None and isinstance(loop.target, ast.Tuple) else None
-        src = norm(loop.iter)[:-len(".items()")] if loop is not None else ""
-        from_doc = src.endswith(".content") or any(norm(v).endswith(".content") for v in bl.values_of(src))
-        ct = {k.arg: norm(k.value) for k in c.keywords}.get("content_type")
-        rep.check(ct is not None and ct == keyvar and from_doc, "R03.3", "body_from_data::content-type-is-the-documents-key",
-                  "Body.content_type is not the document's own media type key", where(bfd, c), lhs=ct, rhs=keyvar)
+    # Body.content_type is the key under which the document lists the media type, untouched: the argument is (an alias of, a parameter
+    # that is passed) the key variable of a loop over the items / keys of <request body>.content
+    def is_content(g: Any, e: ast.AST) -> bool:
+        return isinstance(e, ast.Attribute) and e.attr == "content"
+
+    def is_document_key(g: Any, e: ast.AST) -> bool:
+        if not isinstance(e, ast.Name):
+            return False
+        for pos, it in brg.loops(g, e.id):
+            call = it if isinstance(it, ast.Call) and isinstance(it.func, ast.Attribute) and not it.args and not it.keywords else None
+            if pos == "[0]" and call is not None and call.func.attr == "items" and brg.denotes(g, call.func.value, is_content):
+                return True
+            if pos == "" and brg.denotes(g, call.func.value if call is not None and call.func.attr == "keys" else it, is_content):
+                return True
+        return False
+
+    for g, c in body_calls:
+        ct = body_arg(c, "content_type")
+        rep.check(ct is not None and brg.denotes(g, ct, is_document_key), "R03.3", "body_from_data::content-type-is-the-documents-key",
+                  "Body.content_type is not the document's own media type key", where(g, c), lhs=norm(ct),
+                  rhs="the key variable of the loop over <request body>.content")
+
+    # ---- R03.10 ------------------------------------------------------------------------------------------------------------
+    FLAG = "is_multipart_body"
+    mt = jx.templates.get("model.py.jinja")
+    rep.require(mt, "model.py.jinja")
+    to_mp = [f for f in tplq.frags(mt.tree.body) if f.kind == "data" and re.search(r"\bdef to_multipart\(", f.text)]
+    rep.require(to_mp, "def to_multipart in model.py.jinja")
+    if not all(tplq.implies(f, f"model.{FLAG}", True) for f in to_mp):
+        rep.ok("R03.10", "model.py.jinja::to_multipart", "unconditional", f"to_multipart does not depend on {FLAG}", nontrivial=False)
+    else:
+        def flag_value(c: ast.AST) -> ast.AST | None:
+            """the value a copy (evolve / replace) gives the flag"""
+            if isinstance(c, ast.Call) and call_name(c).rsplit(".", 1)[-1] in ("evolve", "replace") and c.args:
+                return next((k.value for k in c.keywords if k.arg == FLAG), None)
+            return None
+
+        def is_true(v: ast.AST | None, lc: Locals) -> bool:
+            v = _only_value(lc, v.id) or v if isinstance(v, ast.Name) else v
+            return isinstance(v, ast.Constant) and v.value is True
+
+        def flows(g: Any, v: ast.AST) -> list[ast.AST]:
+            return [n for x in _sources(brg, g, v) for n in ast.walk(x)]
+
+        # the model of a multipart body gets the method: a copy that sets the flag is what Body(prop=) receives and what is registered
+        # (what value it may give the flag is the second clause)
+        raised = [c for g in brg.funcs for c in calls_in(g.node) if flag_value(c) is not None]
+        in_body = [c for c in raised if any(x is c for g, b in body_calls for v in [body_arg(b, "prop")] if v is not None for x in flows(g, v))]
+        registered = []
+        for g in brg.funcs:
+            for n in ast.walk(g.node):
+                vals = [k.value for k in n.keywords if k.arg == "classes_by_name"] if isinstance(n, ast.Call) else []
+                if isinstance(n, ast.Assign) and any(isinstance(t, ast.Subscript) and isinstance(t.value, ast.Attribute) and t.value.attr == "classes_by_name"
+                                                     for t in n.targets):
+                    vals.append(n.value)
+                # (a dict that is filled after it was made - d[k] = v, d.update(...), d.setdefault(k, v) - holds what was put into it)
+                for nm in {x for v in vals for x in names_in(v)}:
+                    for m in ast.walk(g.node):
+                        if isinstance(m, ast.Assign) and any(isinstance(t, ast.Subscript) and norm(t.value) == nm for t in m.targets):
+                            vals.append(m.value)
+                        elif isinstance(m, ast.Call) and isinstance(m.func, ast.Attribute) and norm(m.func.value) == nm and m.func.attr in ("update", "setdefault"):
+                            vals += [*m.args, *[k.value for k in m.keywords]]
+                registered += [c for c in in_body for v in vals if any(x is c for x in flows(g, v))]
+        rep.check(bool(registered), "R03.10", "body_from_data::multipart-model-flagged-and-registered",
+                  f"no copy of the body's model that sets {FLAG} reaches both Body(prop=) and classes_by_name: a model sent as multipart "
+                  "would have no to_multipart", where(bfd, bfd.node), lhs={"flag raised": len(raised), "reaches Body": len(in_body)})
+        # and no other use of the class takes it away again: the flag of an existing object is only ever raised
+        n_flag = 0
+        for f in ix.all_functions:
+            fl = None
+            for n in ast.walk(f.node):
+                obj = val = None
+                if flag_value(n) is not None:
+                    obj, val = n.args[0], flag_value(n)
+                elif isinstance(n, ast.Call) and call_name(n) in ("object.__setattr__", "setattr") and len(n.args) == 3 and \
+                        isinstance(n.args[1], ast.Constant) and n.args[1].value == FLAG:
+                    obj, val = n.args[0], n.args[2]
+                elif isinstance(n, ast.Assign) and f.name not in ("__init__", "__attrs_post_init__", "__post_init__"):
+                    obj, val = next(((t.value, n.value) for t in n.targets if isinstance(t, ast.Attribute) and t.attr == FLAG), (None, None))
+                if val is None:
+                    continue
+                n_flag += 1
+                fl = fl or Locals(f.node)
+                v = _only_value(fl, val.id) or val if isinstance(val, ast.Name) else val
+                kept = isinstance(v, ast.BoolOp) and isinstance(v.op, ast.Or) and any(norm(x) == f"{norm(obj)}.{FLAG}" or is_true(x, fl) for x in v.values)
+                rep.check(is_true(v, fl) or kept, "R03.10", f"{short(f)}::{FLAG}-only-raised",
+                          f"{FLAG} of an existing model is set to `{norm(val)}`: a class that an earlier operation sends as multipart loses "
+                          "to_multipart when a later one uses it as JSON or form data", where(f, n), lhs=norm(val), rhs=f"True, or `<object>.{FLAG} or ...`")
+        # (no minimum: when nothing sets the flag at all the first clause reports it - a verdict, not an analysis error)
+        rep.floor("multipart_flag_updates", n_flag, 0)
 
     # ---- R03.4 (shared shapes with C10) ------------------------------------------------------------------------------------
     gs = jx.templates["property_templates/helpers.jinja"].macros.get("guarded_statement")
@@ -808,7 +1187,7 @@ def run(rep: Report, ctx: Any) -> str:
                   where=f"{PKG}/templates/{em.name}:{fr.line}", lhs=norm(c), rhs="true for every value that is neither UNSET nor None")
 
     # ---- R03.5 -------------------------------------------------------------------------------------------------------------
-    n_h = 0
+    n_h = n_th = 0
     for c in ix.property_classes():
         al = ix.find_classvar(c, "_allowed_locations")
         if al is None or "HEADER" not in norm(al[1]):
@@ -824,7 +1203,43 @@ def run(rep: Report, ctx: Any) -> str:
         rep.check(ti is not None and "transform_header" in ti.macros, "R03.5", f"{c.name}::transform_header",
                   f"{c.name} is allowed in headers, its Python type is `{tstr or 'computed'}`, but {tname} defines no transform_header: httpx "
                   "rejects non-str header values", where=f"{PKG}/templates/property_templates/{tname}", lhs=tstr, rhs="transform_header macro")
+        th = ti.macros.get("transform_header") if ti is not None else None
+        if th is None or not th.args:
+            continue
+        # what transform_header writes, path by path: one Python expression, computed from the argument, a str whatever the value
+        # (httpx refuses anything else; a kind whose values are str only for some documents - an enum - is not a str)
+        n_th += 1
+        bad_paths = []
+        for env, ps in _paths(ti, th):
+            tree, holes = _py_of(ps, "eval")
+            src = {h for h, p in holes.items() if _flat(p.text) == th.args[0].name}
+            if tree is None or not _is_str(tree.body) or not (names_in(tree) & src):
+                bad_paths.append((_written(ps).replace(HOLE, "<>").strip()[:80], env))
+        rep.check(not bad_paths, "R03.5", f"{c.name}::transform_header-is-str", f"what {tname}::transform_header writes is not (on every path) "
+                  f"a str computed from its argument: httpx rejects non-str header values (e.g. {bad_paths[:1]})",
+                  where=f"{PKG}/templates/property_templates/{tname}:{th.lineno}", lhs=bad_paths[:3], rhs="str(<argument>) or another expression that is always a str")
     rep.floor("header_capable_kinds", n_h, 4)
+    rep.floor("header_transforms", n_th, 3)
+    # header_params stores what transform_header writes whenever the kind's template defines it: the value of the statement handed to
+    # guarded_statement, on every path on which `<template of the kind>.transform_header` is true
+    n_store = 0
+    unconverted = []
+    for env, ps in _paths(em, hp):
+        defined = [v for a, v in env.items() if re.search(r"\.transform_header\b(?!\()", a)]
+        for p in [p for p in ps if p.kind == "h" and isinstance(p.node, nodes.Call) and expr_text(p.node.node) == "guarded_statement" and len(p.args) >= 3]:
+            tree, holes = _py_of(p.args[2], "exec")
+            store = tree.body[0] if tree is not None and len(tree.body) == 1 and isinstance(tree.body[0], ast.Assign) else None
+            if store is None:
+                continue
+            n_store += 1
+            vals = [holes[n] for n in names_in(store.value) if n in holes]
+            through = any(re.search(r"\.transform_header\(", v.text) and any(re.search(r"\.python_name$", _flat(a.text)) for arg in v.args for a in arg if a.kind == "h")
+                          for v in vals)
+            if all(defined) and not through:
+                unconverted.append(norm(store.value))
+    rep.check(n_store > 0 and not unconverted, "R03.5", "header_params::value-through-transform_header",
+              "a header store does not take its value from transform_header although the kind's template defines it",
+              where=f"{PKG}/templates/{em.name}:{hp.lineno}", lhs=unconverted[:3] or n_store, rhs="<template>.transform_header(<parameter>.python_name)")
 
     # ---- R03.6 ---------------------------------------------------------------------------------------------------------------
     w = SkelWalker(jx, frozenset())
@@ -864,14 +1279,15 @@ def run(rep: Report, ctx: Any) -> str:
     # `security` (evaluated over None / empty / non-empty when it is an expression of `.security`, bool, len, not, and, or, comparisons
     # alone; otherwise at least computed from `.security`)
     sec = []
-    for g in region(ix, efd):
-        gl = Locals(g.node)
+    erg = _Region(ix, efd)
+    for g in erg.funcs:
+        gl = erg.lc[g.qual]
         for c in calls_in(g.node):
             for k in c.keywords:
                 if k.arg == "requires_security":
                     t = _security_truth(k.value, gl)
                     if t is None:
-                        t = any(isinstance(n, ast.Attribute) and n.attr == "security" for x in _sources(ix, g, k.value) for n in ast.walk(x))
+                        t = any(isinstance(n, ast.Attribute) and n.attr == "security" for x in _sources(erg, g, k.value) for n in ast.walk(x))
                     sec.append((norm(k.value), t))
     rep.check(bool(sec) and all(t for _, t in sec), "R03.7", "Endpoint.from_data::requires_security", "requires_security is not "
               "derived from the operation's security", where(efd, efd.node), lhs=[v for v, _ in sec], rhs="true exactly when <operation>.security is not empty")
@@ -929,7 +1345,8 @@ def run(rep: Report, ctx: Any) -> str:
     ploops = [n for n in ast.walk(ap.node) if isinstance(n, ast.For) and norm(n.iter) == "data.parameters"]
     rep.require(ploops, "loop over data.parameters")
     loop = ploops[0]
-    al = Locals(ap.node)
+    arg_ = _Region(ix, ap)
+    al = arg_.lc[ap.qual]
     # the parameter under consideration, whatever the function calls it: the loop variable, what parameter_from_reference resolves it
     # to, and aliases of these
     P = {t.id for t in ast.walk(loop.target) if isinstance(t, ast.Name)}
@@ -987,7 +1404,7 @@ def run(rep: Report, ctx: Any) -> str:
             # compared by name alone: the location must have selected what the name is compared against - it flows into the other
             # operand (for a comparison inside a comprehension: into the comprehension), or the parameter is handed over as a whole
             unit = next((k for k in comps if any(x is n for x in ast.walk(k))), other)
-            flow = _sources(ix, ap, unit, stop=frozenset(P))
+            flow = _sources(arg_, ap, unit, stop=frozenset(P))
             both = any(p_attr(x, "param_in") for e in flow for x in ast.walk(e)) or any(
                 isinstance(a, ast.Name) and a.id in P for e in flow for c in calls_in(e) for a in [*c.args, *[k.value for k in c.keywords]])
         rep.check(both, "R03.9", f"Endpoint.add_parameters::identity[{n_id}]",
